@@ -672,6 +672,14 @@ func (x *c01Run) exec() {
 				x.violate("fidelity:"+field, srcKind(sc.Records[i]), fmt.Sprintf("record %d read back differs from what was written in %s: %s", i, field, detail))
 			}
 		}
+		// ... and against the residues the record is made of, known without
+		// asking gts: both values above answer Bytes() through the same code
+		if want, ok := modelResidues(sc.Records[i]); ok {
+			res.Probes["residues_compared_with_letters_known_without_gts"]++
+			if got := r2.Seqs[k].Bytes(); !bytes.Equal(got, want) {
+				x.violate("fidelity:residues", srcKind(sc.Records[i])+":model", fmt.Sprintf("record %d is made of %d residues (the generator's letters, or the letters of the corpus file's ORIGIN block, taken through a model of the edits); read back, gts says it holds %d", i, len(want), len(got)))
+			}
+		}
 	}
 	// P3
 	processBoundary()
